@@ -189,6 +189,8 @@ def run(chk):
                     frame = frames[nb % len(frames)]
                     chain = pl.CHAINS[(nb // 2) % len(pl.CHAINS)]
                     prec = 'float64' if nb % 3 else 'float32'
+                    if kind == 'MIA' and nb % 2 == 0:
+                        prec = 'uint32'
                     ctx = {'property': 'C02', 'behaviour': beh, 'kind': kind, 'mode': mode, 'precision': prec, 'frame': frame, 'chain': chain, 'seed': chk.seed + nb, 'convergence_step': int(beh['step']) if use_step else None}
                     a, rec, sets, mk = execute(beh, kind, mode, prec, frame, chain, chk.seed + nb, step=int(beh['step']) if use_step else None)
                     bad, ctx = compare(chk, beh, a, rec, sets, mk, ctx, frame, chain)
